@@ -2,7 +2,7 @@
 Model of the general (non-uniform) B-spline kernels, pygyro/splines/spline_eval_funcs.py.
 
   nu_find_span              :7-57     `findSpan`  (binary search; `while` = recursion with fuel `high-low+1`,
-                                                    `Props/C07.findSpan_some` shows the fuel suffices for sorted knots)
+                                                    `Props/C07.findSpan_some_correct` shows the fuel suffices for sorted knots)
   nu_basis_funs             :64-111   `basisFuns` (Algorithm A2.2 with the `saved/temp` inner loop, same order of operations)
   nu_basis_funs_1st_der     :116-166  `basisFunsDer`
   nu_eval_spline_1d_scalar  :171-187  `evalSpline1D`
